@@ -24,9 +24,12 @@
 //
 // Workloads: (1) direct: initial choice + up to 5 follow-up steps (connect failure, in-flight
 // set/cleared, join = cursor reset, kick from the current server) through the hook;
-// (2) chain: the player sits on a server, the backend kicks it (handleDisconnectWithReason),
-// every registered server's dialer fails, and the KickedFromServerEvent sequence
-// (redirect targets, final disconnect + reason) is compared with the reference;
+// (2) chain: a backend kicks the player (handleDisconnectWithReason) in every combination of
+// {the player has a current server or not} x {a connection to another server is in flight or
+// not} x {the kicking server is the current one / the in-flight one / neither}, every
+// registered server's dialer fails, and the KickedFromServerEvent sequence (initial results:
+// redirect targets, final disconnect + reason) is compared with the reference computed from
+// the state at the time of the kick;
 // (3) loader: as (1) with the configuration written to a file with mixed-case forced-host keys
 // and read back by gate.LoadConfig.
 package c17
@@ -449,9 +452,10 @@ func classify(c caseSpec, w *world, stepKind string, got, want string, rerun fun
 func TestC17(t *testing.T) {
 	r := lib.Start(t, "C17")
 	defer r.Finish()
-	r.Rule("each case is a generated configuration (0-3 forced hosts with 0-4 servers each, try list of 0-4, names drawn from 3-5 servers incl. unregistered names and other-case spellings), a registered subset, one virtual-host spelling (case, trailing/leading dot, TCPShield and Forge suffixes, port) and up to 5 follow-up steps; classes: direct (hook), chain (backend kick with failing dialers, observed through KickedFromServerEvent), loader (mixed-case forced-host keys through gate.LoadConfig); distinct = distinct (class, case); non-trivial = at least one candidate list is non-empty")
+	r.Rule("each case is a generated configuration (0-3 forced hosts with 0-4 servers each, try list of 0-4, names drawn from 3-5 servers incl. unregistered names and other-case spellings), a registered subset, one virtual-host spelling (case, trailing/leading dot, TCPShield and Forge suffixes, port) and up to 5 follow-up steps; classes: direct (hook), chain (backend kick in a state drawn from {current server set or not} x {in-flight connection to another server or not} x {kicked by the current / in-flight / another server}, optionally after an initial choice, with failing dialers, observed through the KickedFromServerEvent initial results), loader (mixed-case forced-host keys through gate.LoadConfig); distinct = distinct (class, case); non-trivial = at least one candidate list is non-empty")
 	r.Assume("reference written from the statement (see file comment); 'next listed' is read with the try cursor, and a sequence ends at the first nil")
-	r.Assume("hook verif_hooks_c17.go builds the player like authSessionHandler does and sets current/in-flight through setConnectedServer/setInFlightConnection")
+	r.Assume("hook verif_hooks_c17.go builds the player like authSessionHandler does and sets current/in-flight through setConnectedServer/setInFlightConnection; verif_hooks_c17b.go sets an in-flight connection that the backend has already disconnected (the state when the server being connected to kicks the player)")
+	r.Assume("a kick by a server other than the player's current one while it has a current server (failed switch) chooses no server: notify is expected, only a redirect to a wrong server is judged; with another server's connection in flight only the first KickedFromServerEvent of a chain is judged")
 
 	runDirect(r, "direct", r.N(20000, 900000), false)
 	runChain(r, r.N(3000, 100000))
@@ -642,9 +646,70 @@ func plainText(c component.Component) string {
 	return b.String()
 }
 
+// chainState is the player's state at the moment of the kick.
+type chainState struct {
+	Initial  bool   // an initial choice (nextServerToTry(nil)) was made before, as on a real login
+	Current  string // registered spelling or ""
+	InFlight string // registered spelling or ""
+	Kicked   string // registered spelling
+	Relation string // kicked server = current | in-flight | neither
+}
+
+func (s chainState) class() string {
+	c := "no-current"
+	if s.Current != "" {
+		c = "current"
+	}
+	if s.InFlight != "" {
+		c += "+in-flight"
+	}
+	return c + ":kicked=" + s.Relation
+}
+
+type kickEv struct {
+	From, Result, To, Reason string
+	HasOriginal              bool
+}
+
+// refChain: the reference's sequence of KickedFromServerEvent initial results for a kick in
+// state st when every later connect fails. The first choice is computed from the state AT THE
+// TIME OF THE KICK (failed, current and in-flight server excluded). Reading taken for a kick
+// by a server that is not the player's current server while it has one (a failed switch):
+// the player keeps its server, no fallback is chosen ("notify"); the statement speaks of the
+// next server *chosen*, and none is.
+func refChain(rf *ref, st chainState, max int) []kickEv {
+	if st.Initial {
+		rf.next("")
+	}
+	if st.Current != "" {
+		rf.joined(st.Current)
+	}
+	rf.inflight = st.InFlight
+	if st.Current != "" && !strings.EqualFold(st.Current, st.Kicked) {
+		return []kickEv{{From: st.Kicked, Result: "notify"}}
+	}
+	var want []kickEv
+	failed := st.Kicked
+	for k := 0; k < max; k++ {
+		nx := rf.next(failed)
+		if k == 0 {
+			// handleKickEvent: nothing is in flight any more, the current server is gone
+			rf.current, rf.inflight = "", ""
+		}
+		if nx == "" {
+			want = append(want, kickEv{From: failed, Result: "disconnect"})
+			break
+		}
+		want = append(want, kickEv{From: failed, Result: "redirect", To: nx})
+		failed = nx
+	}
+	return want
+}
+
 func runChain(r *lib.Run, n int) {
 	rng := r.Rng("chain")
-	var events, redirects, disconnects, reasonChecked int
+	var events, redirects, disconnects, notifies, reasonChecked, withInFlight, inFlightListedAfter, laterNotJudged, firstJudged int
+	stateClasses := map[string]int{}
 	for i := 0; i < n; i++ {
 		c := genCase(rng, false)
 		c.Steps = nil
@@ -656,18 +721,83 @@ func runChain(r *lib.Run, n int) {
 			r.Inconclusive(err.Error())
 			continue
 		}
-		r.Eval(1)
-		// the player sits on `cur` (joined: cursor 0) when that backend kicks it
-		cur := c.Registered[rng.Intn(len(c.Registered))]
-		w.pl.SetCurrentServer(w.px.Server(cur))
-		w.ref.joined(cur)
-		type ev struct {
-			From, Result, To, Reason string
-			HasOriginal              bool
+		// state at the time of the kick: {current set or not} x {in-flight to another server
+		// or not} x {kicked server = current / in-flight / neither}
+		var st chainState
+		pick := func(not ...string) string {
+			var cand []string
+			for _, s := range c.Registered {
+				ok := true
+				for _, x := range not {
+					if x != "" && strings.EqualFold(s, x) {
+						ok = false
+					}
+				}
+				if ok {
+					cand = append(cand, s)
+				}
+			}
+			if len(cand) == 0 {
+				return ""
+			}
+			return cand[rng.Intn(len(cand))]
 		}
-		var got []ev
+		st.Initial = rng.Intn(2) == 0
+		initial := ""
+		if st.Initial {
+			initial = nameOf(w.pl.NextServerToTry(nil))
+		}
+		if rng.Intn(3) != 0 {
+			st.Current = pick()
+		}
+		if rng.Intn(2) == 0 {
+			if st.Current == "" && initial != "" && rng.Intn(2) == 0 {
+				st.InFlight = initial // the usual login: the initial choice is being connected to
+			} else {
+				st.InFlight = pick(st.Current)
+			}
+		}
+		var rel []string
+		if st.Current != "" {
+			rel = append(rel, "current", "current")
+		}
+		if st.InFlight != "" {
+			rel = append(rel, "in-flight")
+		}
+		other := pick(st.Current, st.InFlight)
+		if other != "" {
+			rel = append(rel, "neither")
+		}
+		if len(rel) == 0 {
+			continue
+		}
+		st.Relation = rel[rng.Intn(len(rel))]
+		switch st.Relation {
+		case "current":
+			st.Kicked = st.Current
+		case "in-flight":
+			st.Kicked = st.InFlight
+		default:
+			st.Kicked = other
+		}
+		r.Eval(1)
+		stateClasses[st.class()]++
+		if st.Current != "" {
+			w.pl.SetCurrentServer(w.px.Server(st.Current))
+		}
+		if st.InFlight != "" {
+			if st.Relation == "in-flight" {
+				// the server being connected to kicks the player: that connection has been
+				// disconnected by the backend (an open one could not have kicked anybody)
+				w.pl.SetDisconnectedInFlightServer(w.px.Server(st.InFlight))
+			} else {
+				w.pl.SetInFlightServer(w.px.Server(st.InFlight))
+			}
+			withInFlight++
+		}
+		var got []kickEv
 		event.Subscribe(w.mgr, 0, func(e *proxy.KickedFromServerEvent) {
-			x := ev{From: nameOf(e.Server()), HasOriginal: e.OriginalReason() != nil}
+			x := kickEv{From: nameOf(e.Server()), HasOriginal: e.OriginalReason() != nil}
 			switch res := e.Result().(type) {
 			case *proxy.RedirectPlayerKickResult:
 				x.Result, x.To = "redirect", nameOf(res.Server)
@@ -681,30 +811,37 @@ func runChain(r *lib.Run, n int) {
 			got = append(got, x)
 		})
 		kickText := fmt.Sprintf("kicked-%d-by-backend", i)
-		w.pl.KickedFrom(w.px.Server(cur), &component.Text{Content: kickText})
+		w.pl.KickedFrom(w.px.Server(st.Kicked), &component.Text{Content: kickText})
 
-		// reference: kicked from current -> next(cur); current is cleared; each failed connect -> next(failed)
-		var want []ev
-		failed := cur
-		first := true
-		for k := 0; k < 20; k++ {
-			nx := w.ref.next(failed)
-			if first {
-				w.ref.current = "" // handleKickEvent clears the connected server
-				first = false
+		want := refChain(w.ref, st, 20)
+		if st.InFlight != "" && st.Relation != "in-flight" && len(want) > 0 && want[0].Result != "notify" {
+			// would the in-flight server have been the choice had it not been excluded?
+			alt := &ref{forced: w.ref.forced, try: w.ref.try, registered: w.ref.registered, fold: true, host: w.ref.host}
+			st2 := st
+			st2.InFlight = ""
+			if a := refChain(alt, st2, 1); len(a) > 0 && strings.EqualFold(a[0].To, st.InFlight) {
+				inFlightListedAfter++
 			}
-			if nx == "" {
-				want = append(want, ev{From: failed, Result: "disconnect"})
-				break
-			}
-			want = append(want, ev{From: failed, Result: "redirect", To: nx})
-			failed = nx
 		}
 		events += len(got)
+		// While another server's connection stays in flight the statement does not say what
+		// becomes of it after the kick (whether that request goes on or is dropped), so the
+		// state at later kicks of the chain is not determined: only the first event, whose
+		// state the harness set itself, is judged then.
+		if st.InFlight != "" && st.Relation != "in-flight" {
+			if len(got) > 1 {
+				laterNotJudged += len(got) - 1
+				got = got[:1]
+			}
+			if len(want) > 1 {
+				want = want[:1]
+			}
+		}
+		firstJudged++
 		var trace []string
 		bad := ""
 		for k := 0; k < len(got) || k < len(want); k++ {
-			var g, wv ev
+			var g, wv kickEv
 			if k < len(got) {
 				g = got[k]
 			}
@@ -713,13 +850,32 @@ func runChain(r *lib.Run, n int) {
 			}
 			trace = append(trace, fmt.Sprintf("kicked from %q -> %s %q (want from %q -> %s %q)", g.From, g.Result, g.To, wv.From, wv.Result, wv.To))
 			if bad == "" && (g.From != wv.From || g.Result != wv.Result || g.To != wv.To) {
+				if wv.Result == "notify" && k == 0 && g.From == wv.From && g.Result != "redirect" {
+					// a failed switch while the player has a server: the statement does not say
+					// what happens to the player; only a redirect is a "server chosen". Not judged.
+					r.Count("chain_failed_switch_results_not_judged", 1)
+					break
+				}
 				bad = fmt.Sprintf("event-%d", k)
 				if k >= 2 {
 					bad = "later-event"
 				}
+				if k == 0 && g.Result == "redirect" {
+					switch {
+					case st.InFlight != "" && strings.EqualFold(g.To, st.InFlight):
+						bad = "in-flight-server-chosen-as-fallback"
+					case st.Current != "" && strings.EqualFold(g.To, st.Current):
+						bad = "current-server-chosen-as-fallback"
+					case strings.EqualFold(g.To, st.Kicked):
+						bad = "failed-server-chosen-as-fallback"
+					}
+				}
 			}
 			if g.Result == "redirect" {
 				redirects++
+			}
+			if g.Result == "notify" {
+				notifies++
 			}
 			if g.Result == "disconnect" {
 				disconnects++
@@ -737,40 +893,36 @@ func runChain(r *lib.Run, n int) {
 		}
 		if bad != "" {
 			sig := "kick-chain:" + bad
-			if bad != "disconnect-reason-lacks-kick-reason" && bad != "player-not-disconnected-when-no-server-remains" {
+			if strings.HasPrefix(bad, "event-") || bad == "later-event" {
 				gotSeq := []string{}
 				for _, g := range got {
 					gotSeq = append(gotSeq, g.To)
 				}
 				rerun := func(alt *ref) []string {
-					alt.joined(cur)
 					var seq []string
-					f, fst := cur, true
-					for k := 0; k < len(gotSeq); k++ {
-						nx := alt.next(f)
-						if fst {
-							alt.current, fst = "", false
-						}
-						seq = append(seq, nx)
-						if nx == "" {
-							break
-						}
-						f = nx
+					for _, e := range refChain(alt, st, len(gotSeq)) {
+						seq = append(seq, e.To)
 					}
 					return seq
 				}
 				sig = classify(c, w, "kick-chain-"+bad, "x", "y", rerun, gotSeq)
 			}
-			r.Violation(sig, "after a backend kick the sequence of fallback choices (KickedFromServerEvent results) differs from the reference",
-				map[string]any{"class": "chain", "case": c.String(), "kicked_from": cur, "gate_clean_host": w.pl.VirtualHostname(), "reference_clean_host": w.ref.host, "trace": trace, "dials": w.dials})
+			r.Violation(sig, "after a backend kick the sequence of fallback choices (KickedFromServerEvent results) differs from the reference computed from the state at the time of the kick (failed, current and in-flight server excluded)",
+				map[string]any{"class": "chain", "case": c.String(), "state_at_kick": st, "state_class": st.class(), "gate_clean_host": w.pl.VirtualHostname(), "reference_clean_host": w.ref.host, "trace": trace, "dials": w.dials})
 		}
-		r.Distinct("chain " + cur + " " + c.String())
+		r.Distinct("chain " + fmt.Sprint(st) + " " + c.String())
 		if r.WantSample() {
-			r.Sample(map[string]any{"class": "chain", "case": c.String(), "kicked_from": cur, "events": trace})
+			r.Sample(map[string]any{"class": "chain", "case": c.String(), "state_at_kick": st, "events": trace})
 		}
 	}
 	r.Count("chain_kick_events_observed", events)
 	r.Count("chain_redirect_results", redirects)
 	r.Count("chain_disconnect_results", disconnects)
+	r.Count("chain_notify_results", notifies)
 	r.Count("chain_disconnect_reasons_checked_for_kick_reason", reasonChecked)
+	r.Count("chain_first_kick_results_compared_with_state_at_kick", firstJudged)
+	r.Count("chain_later_events_not_judged_other_connection_in_flight", laterNotJudged)
+	r.Count("chain_kicks_with_an_in_flight_connection", withInFlight)
+	r.Count("chain_kicks_where_the_in_flight_server_was_the_next_listed_candidate", inFlightListedAfter)
+	r.Set("chain_kicks_by_state_at_kick", stateClasses)
 }
